@@ -199,9 +199,23 @@ def run(ctx):
                     continue
                 for o in sw.origins():
                     if o.kind == "bin" and o.what in ("Eq", "Ne"):
+                        def feeders(op_):
+                            """calls the value comes from; for the finish() of a hasher also the calls whose results were hashed into it
+                            (the identity may combine Pool::hash_value with the inherited settings, D66)"""
+                            names = {oo.call.name for oo in origins(fc, op_) if oo.kind == "call"}
+                            for fin in [oo.call for oo in origins(fc, op_) if oo.kind == "call" and oo.call.name.endswith("::finish")]:
+                                hl = set()
+                                origins(fc, fin.args[0], visited=hl)
+                                for hc in fc.calls("re:Hash(<.*>)?>::hash$|^core::hash::Hash::hash$|impl core::hash::Hash for .*>::hash$"):
+                                    sl = set()
+                                    if len(hc.args) >= 2:
+                                        origins(fc, hc.args[1], visited=sl)
+                                    if sl & hl:
+                                        names |= {oo.call.name for oo in origins(fc, hc.args[0], taint=True) if oo.kind == "call"}
+                            return names
                         a_f = {pp for oo in origins(fc, o.extra["a"]) for pp in oo.proj if oo.kind == "place"}
-                        b_c = {oo.call.name for oo in origins(fc, o.extra["b"]) if oo.kind == "call"}
-                        a_c = {oo.call.name for oo in origins(fc, o.extra["a"]) if oo.kind == "call"}
+                        b_c = feeders(o.extra["b"])
+                        a_c = feeders(o.extra["a"])
                         b_f = {pp for oo in origins(fc, o.extra["b"]) for pp in oo.proj if oo.kind == "place"}
                         if (".config_hash" in a_f and "pgcat::config::Pool::hash_value" in b_c) or (".config_hash" in b_f and "pgcat::config::Pool::hash_value" in a_c):
                             te, fe = sw.bool_edges()
@@ -231,6 +245,18 @@ def run(ctx):
                     r3.check(not hit, "reuse=>no-rebuild", "after the reuse insert the iteration ends without building a new pool", "after carrying the pool over, the same iteration still builds a new bb8 pool (the reused pool is replaced / connections dropped)", c.where())
                 for key_, ok_, okm_, fm_ in definition_identity_findings(F):
                     r3.check(ok_, key_, okm_, fm_)
+
+    # ... and the identity covers what else the pool is built from: the [general] values and the global [plugins] section from_config reads while building (D66)
+    from common import pool_identity_gap
+    pig = pool_identity_gap(F)
+    if pig is None:
+        r3.missing("from_config / ConnectionPool.config_hash")
+    else:
+        used_, hashed_, exempt_ = pig
+        gap_ = sorted(used_ - hashed_ - exempt_)
+        r3.check(len(used_) >= 5 and not gap_, "identity-covers-inherited-settings", "every value of the rest of the configuration that from_config builds a pool from (%s) is part of the identity compared with config_hash" % ", ".join(sorted(used_ - exempt_)),
+                 "from_config builds a pool from %s, which are not part of the identity it compares (Pool::hash_value of the pool's own section): a valid file that changes only those is accepted, shown as the configuration in force - "
+                 "and every pool is kept as it was, with the old values" % gap_)
 
     # ---------------- R4
     r4 = ctx.rule("C14-R4", "Client::handle re-resolves its pool (by database,user) after reading the client's message and before every checkout; a removed pool yields an error return, never another pool", floor=4)
